@@ -284,7 +284,17 @@ def run_harness(binary, cases, shards=None):
             raise HarnessDied(chunks[i], lines, rc, err)
         for k, l in enumerate(lines):
             obs[i + k * shards] = json.loads(l)
+    for c, o in zip(cases, obs):
+        if isinstance(o, dict) and "impl_panic" in o:
+            # a helper of the implementation (did_you_mean, the kinds phrase, pointers, conversions) panicked on this input
+            raise ImplPanic(c, o)
     return obs
+
+
+class ImplPanic(Exception):
+    def __init__(self, case, obs):
+        self.case, self.obs = case, obs
+        super().__init__("the implementation panicked in mode %s: %s" % (obs.get("mode"), obs.get("impl_panic")))
 
 
 class HarnessDied(Exception):
